@@ -171,7 +171,8 @@ def _configs(tier, salts):
                                 out.append((cfg, {"depth": 0}))
         # the broad option bank over many budgets
         if salt == 0 or tier == "thorough":
-            for name, cfg in cfgs.broad_cfgs(salt=salt, budgets=tuple(range(2, 62, 3 if tier == "quick" else 1)), reg_budgets=(3, 8)):
+            for name, cfg in cfgs.broad_cfgs(salt=salt, budgets=tuple(range(2, 62, 3 if tier == "quick" else 1)), reg_budgets=(3, 8),
+                                             overlays=("avg", "soft") if tier == "thorough" else ("soft",)):
                 cfg = dict(cfg, tag_restart="broad")
                 out.append((cfg, {"depth": 0}))
         # an objective that is non-finite at EVERY evaluation (one more way a run can end)
